@@ -10,8 +10,10 @@ use rand_xoshiro::Xoroshiro128StarStar;
 use std::collections::BTreeMap;
 
 /// positions (0-based processing slots) of the n instructions of one step, in submission order.  Instruction kinds are mixed: even submission indices place new
-/// orders (slot = arrival time - step start), odd ones cancel an order that rests from the step before (slot = end time - step start).
-fn one_step(n: usize, seed: u64, market: bool) -> Option<Vec<usize>> {
+/// orders (slot = arrival time - step start), odd ones cancel an order that rests from the step before (slot = end time - step start); see `mix` for the one-kind batches.
+fn one_step(n: usize, seed: u64, market: bool, mix: u8) -> Option<Vec<usize>> {
+    // mix 0: new orders and cancellations alternate; 1: cancellations only; 2: new orders only (a batch of one kind must be shuffled like any other)
+    let is_new = |k: usize| match mix { 0 => k % 2 == 0, 1 => false, _ => true };
     let mut rng = Xoroshiro128StarStar::seed_from_u64(seed);
     let mut setup = Xoroshiro128StarStar::seed_from_u64(1);
     let step = 1000u64;
@@ -22,7 +24,7 @@ fn one_step(n: usize, seed: u64, market: bool) -> Option<Vec<usize>> {
         let start = env.get_orderbook().get_time();
         let mut ids = vec![];
         for k in 0..n {
-            if k % 2 == 0 {
+            if is_new(k) {
                 ids.push((true, env.place_order(Side::Ask, 1, k as u32, Some(500 + k as u32)).unwrap()));
             } else {
                 env.cancel_order(resting[k]);
@@ -44,7 +46,7 @@ fn one_step(n: usize, seed: u64, market: bool) -> Option<Vec<usize>> {
         let start = env.get_market().get_time();
         let mut ids = vec![];
         for k in 0..n {
-            if k % 2 == 0 {
+            if is_new(k) {
                 ids.push((true, env.place_order((k / 2) % 2, Side::Ask, 1, k as u32, Some(500 + 2 * k as u32)).unwrap()));
             } else {
                 env.cancel_order(resting[k]);
@@ -74,16 +76,17 @@ fn bernstein_t(n: f64, p: f64, delta: f64) -> f64 {
 pub fn shuffle_stats(seed0: u64, per_size: usize) -> (usize, Vec<String>) {
     let mut bad = vec![];
     let mut runs = 0usize;
-    // number of cells over everything tested: 2 envs x (2 + 6 + 24 + 64 + 56)
-    let cells = 2.0 * (2.0 + 6.0 + 24.0 + 64.0 + 56.0);
+    // number of cells over everything tested: 2 envs x 3 instruction mixes x (2 + 6 + 24 + 64 + 56)
+    let cells = 2.0 * 3.0 * (2.0 + 6.0 + 24.0 + 64.0 + 56.0);
     let delta = 1e-9 / cells;
-    for market in [false, true] {
-        let who = if market { "MarketEnv" } else { "Env" };
+    for (market, mix) in [(false, 0u8), (true, 0), (false, 1), (true, 1), (false, 2), (true, 2)] {
+        let who = format!("{}{}", if market { "MarketEnv" } else { "Env" }, ["", " (cancellations only)", " (new orders only)"][mix as usize]);
+        let salt = mix as u64 * 100_000_000;
         for n in [2usize, 3, 4] {
             let mut counts: BTreeMap<Vec<usize>, usize> = BTreeMap::new();
             for k in 0..per_size {
                 runs += 1;
-                match one_step(n, seed0.wrapping_mul(1_000_003).wrapping_add(k as u64), market) {
+                match one_step(n, seed0.wrapping_mul(1_000_003).wrapping_add(salt + k as u64), market, mix) {
                     Some(p) => {
                         let mut sorted = p.clone();
                         sorted.sort();
@@ -114,7 +117,7 @@ pub fn shuffle_stats(seed0: u64, per_size: usize) -> (usize, Vec<String>) {
         let mut before = vec![vec![0usize; n]; n];
         for k in 0..per_size {
             runs += 1;
-            if let Some(p) = one_step(n, seed0.wrapping_mul(1_000_003).wrapping_add(7_000_000 + k as u64), market) {
+            if let Some(p) = one_step(n, seed0.wrapping_mul(1_000_003).wrapping_add(salt + 7_000_000 + k as u64), market, mix) {
                 for i in 0..n {
                     if p[i] >= n { bad.push(format!("{}: batch of 8: slot {} out of range", who, p[i])); return (runs, bad); }
                     pos[i][p[i]] += 1;
